@@ -6,5 +6,10 @@ func init() { core.RegisterProp("C12", run) }
 
 func run(r *core.Run) {
 	r.Rule = "generated wire values (structured: writer output + suffix; boundary: every encoding threshold; malformed: markers × short lengths, huge declared lengths, random bytes); a case is non-trivial when the input is non-empty; distinct by input bytes"
+	runCorpus(r)
 	runLenEnc(r)
+	runPg(r)
+	runMysql(r)
+	runBytea(r)
+	runPgExt(r)
 }
